@@ -527,7 +527,7 @@ func inferArguments(methodBody string, argumentsSpec string) []TiArgument {
 					argumentType = "?Symbol"
 				}
 				arguments = append(arguments, TiArgument{Type: []string{argumentType}})
-			case 'C', 'o':
+			case 'C', 'o', 'c', 'd', 'I':
 				argumentType := "Untyped"
 				if isInOptionalSection {
 					argumentType = "?Untyped"
